@@ -149,6 +149,9 @@ func VerifForeign() {
 	vAssume(quotes%2 == 0)
 	for i := 0; i+2 <= n; i++ {
 		vAssume(!(body[i] == '<' && body[i+1] == '/'))
+		// no child start tag here: a '<' + letter opens a tag whose quotes and '>' follow the tag rules
+		// (children with attributes are derived properly in VerifForeignDoc)
+		vAssume(!(body[i] == '<' && vnIsLetter(body[i+1])))
 	}
 	if n > 0 {
 		vAssume(body[n-1] != '<')
